@@ -114,19 +114,9 @@ CLAIMS = {
          "run repeatedly in C19's stream.",
          "Renaming/statement-permutation invariance is exercised by the shuffled generators but not stated as a theorem.",
          "Lean 4 proof (uniqueness of settlement; graph-level order independence) + repeated builds under fresh hash seeds"),
- "C13": ("Lean theorems C13_lexer_progress / C13_lexer_terminates (every turn of the lexer model's loop strictly shortens the "
-         "remaining input, so the loop ends within length+1 turns for every character string and character classification), "
-         "C13_render_total / C13_render_total_y86 / C13_lookup_total (for every valid-UTF-8 user text, every preamble incl. the "
-         "real one, and every pair of offsets incl. usize::MAX, show_region / line_number_and_bounds / filename perform no "
-         "out-of-range subtraction, index or non-boundary slice: every Rust panic site of io.rs is modelled as Fail.panic and "
-         "shown unreachable). Panic-freedom of evaluation and stepping is C07. The LALRPOP parser, Program::new and errors.rs "
-         "are tied by S-TEXT (model of Program::new on every text that parses, lexer model on every text that does not) and "
-         "S-BYTES (the real binary on arbitrary bytes).",
-         "partial: the generated LR automaton is not modelled, and the theorem 'Program.new never panics' is established only for "
-         "the evaluator and stepper (C07), for io.rs and for the lexer; the rest of program construction is covered by the "
-         "differential streams, which sample. A change that makes the parser or Program::new panic on some text is found by "
-         "the streams only if they generate such a text.",
-         "Lean 4 proof (termination measure, table/boundary invariants) + differential correspondence + fuzzing oracle on the real binary"),
+ "C13": ("Lean theorems C13_construction_no_internal_error (for every statement list with well-formed literals and widths, every flag set, every classification of bank letters and every iteration order of the hash tables, whatever diagnostics the model of Program::new returns, none is InternalPanic: every assert!, unwrap(), panic! and unchecked slice of resolve_constants, preprocess_fixed, assignments_to_actions, the sorter, the register-bank stage and constant evaluation is modelled as an InternalPanic diagnostic and shown unreachable; this includes that the topological order always satisfies the loop's assert!(covered..)), C13_accepted_runs (= C07_accepted: an accepted program's run never panics), C13_lexer_progress / C13_lexer_terminates (the lexer loop consumes input on every turn), C13_render_total / C13_render_total_y86 / C13_lookup_total (show_region, line_number_and_bounds, filename never slice, subtract or index out of range, for any offsets incl. usize::MAX). The LALRPOP parser and the message building of errors.rs are tied by S-TEXT (model of Program::new on every text that parses, lexer model on every text that does not) and S-BYTES (the real binary on arbitrary bytes).",
+         'partial: the generated LR automaton with its error recovery and the message formatting of errors.rs (which slices the source text itself in three places) are not modelled; they are covered by the fuzzing streams, which sample (defect D26 was in exactly that code and was found by a mutation sub-agent, not by the streams).',
+         'Lean 4 proof (termination measure, table/boundary invariants) + differential correspondence + fuzzing oracle on the real binary'),
  "C14": ("Lean theorems about the model of io.rs: Io.lookupIndex_spec (the standard library's binary search, as compiled, finds the "
          "greatest table entry not above the target), Io.lineNumberAndBounds_user / C14_line (for every preamble, user text and "
          "position of the user text up to its end, the reported line number is 1 + the number of line feeds of the user text "
